@@ -138,9 +138,15 @@ def run_impl(tasks, shards=12, script='implrun.py', timeout=1800, env_extra=None
 
 # ------------------------------------------------------------------ verdicts
 def load_findings():
+    """known_findings.json plus per-property fragments known_findings.d/Cxx.json (same entry shape)."""
+    out = []
     p = os.path.join(VERIF, 'known_findings.json')
-    if not os.path.exists(p): return []
-    return json.load(open(p)).get('findings', [])
+    if os.path.exists(p): out += json.load(open(p)).get('findings', [])
+    d = os.path.join(VERIF, 'known_findings.d')
+    if os.path.isdir(d):
+        for f in sorted(os.listdir(d)):
+            if f.endswith('.json'): out += json.load(open(os.path.join(d, f))).get('findings', [])
+    return out
 
 class Check:
     def __init__(self, prop, tier, seed):
